@@ -18,7 +18,7 @@ TInit == Init /\ l = 1
 TReset == /\ IsEv("reset")
           /\ kind' = "none" /\ backend' = "none"
           /\ cached' = -1 /\ meta' = -1 /\ pay' = -1 /\ hist' = <<>>
-          /\ glast' = -1 /\ bad' = ""
+          /\ glast' = -1 /\ gn' = 0 /\ bad' = ""
           /\ act' = [name |-> "reset"]
 
 Logged(r) == cached' = r.cached /\ meta' = r.meta /\ pay' = r.pay
@@ -39,7 +39,7 @@ TCommit == IsEv("Commit") /\ LET r == Rec[l] IN
        [name |-> "Commit", S |-> r.S, res |-> r.res])
 
 TReopen == IsEv("Reopen") /\ LET r == Rec[l] IN
-  Bind(Reopen, UNCHANGED <<hist, glast, bad>>, [name |-> "Reopen"])
+  Bind(Reopen, UNCHANGED <<hist, glast, gn, bad>>, [name |-> "Reopen"])
 
 TRollback == IsEv("Rollback") /\ LET r == Rec[l] IN
   Bind(Rollback /\ r.res = RollbackRes,
